@@ -102,9 +102,9 @@ func explicitStateCases(run *common.Run) *part {
 		t0 := time.Now()
 		results := make([]*cfgResult, len(f.Configs))
 		base := order
-		parallelConfigs(len(f.Configs), deadline, func(i int) { results[i] = explore(f.Configs[i], base+i) })
+		parallelConfigs(len(f.Configs), deadline, func(i int) { results[i] = explore(f.Configs[i], base+i, deadline) })
 		order += len(f.Configs)
-		var st, ed, rp, ev, closed, ran, classes, tbl int64
+		var st, ed, rp, ev, closed, ran, classes, tbl, truncated int64
 		maxDepth := 0
 		for _, r := range results {
 			if r == nil {
@@ -121,6 +121,9 @@ func explicitStateCases(run *common.Run) *part {
 			if r.closed {
 				closed++
 			}
+			if r.truncated {
+				truncated++
+			}
 			if r.depthReached > maxDepth {
 				maxDepth = r.depthReached
 			}
@@ -134,9 +137,9 @@ func explicitStateCases(run *common.Run) *part {
 				p.Samples = append(p.Samples, r.sample)
 			}
 		}
-		if ran < int64(len(f.Configs)) {
+		if ran < int64(len(f.Configs)) || truncated > 0 {
 			p.Exhaustive = false
-			run.Note("%s: time budget reached after %d of %d configurations", f.Name, ran, len(f.Configs))
+			run.Note("%s: time budget reached after %d of %d configurations (%d cut short)", f.Name, ran, len(f.Configs), truncated)
 		}
 		p.States += st
 		p.Transitions += ed
